@@ -118,6 +118,12 @@ class DerivCheckUnit(Unit):
                     # quotient by the truncation error, which is within the tolerance: only the wrong row may be named
                     i2 = r.choice([i for i in range(spec.m) if i != rr])
                     spec.A[i2][cc][cc] = r.choice([-4.0, -2.0, 2.0, 4.0])
+                    if r.random() < 0.4:
+                        # ... of large magnitude, with a truncation error above atol alone but within atol + rtol * |entry|
+                        spec.A[i2][cc][cc] = r.choice([-1.0, 1.0]) * 2.0 ** 8
+                        spec.B[i2][cc] = r.choice([-1.0, 1.0]) * 2.0 ** 15
+                        atol = 2.0 ** -4
+                        delta = r.choice([-1.0, 1.0]) * atol * 16.0
                 corrupt = [which, rr, cc, delta]
             cases.append({"spec": spec.to_json(), "sc": sc, "corrupt": corrupt, "x0": x0, "y0": y0,
                           "first": r.random() < 0.85, "second": r.random() < 0.85, "eps": 2.0 ** -10, "atol": atol,
